@@ -10,129 +10,7 @@
 //   {"e":"R", comp, out, preamble}
 //   {"e":"C","op":{..},"ret":n,"cnt":{items,qr,aec,mm,bw,active},"exc":msg?}
 //   {"e":"OUT","why":"rot|destroy","bytes":segs,"rd":{reader dump},"raw_ok":bool}
-#include "common.h"
-#include "probe.h"
-#include "records.h"
-#include <memory>
-
-using namespace CDNS;
-
-static std::string g_tmpdir;
-
-static std::string decompress(const std::string& path, const std::string& comp, bool& ok)
-{
-    ok = true;
-    if (comp == "none") return vh::read_file(path);
-    bool gz = comp == "gz";
-    std::string cmd = std::string("python3 -c \"import sys,zlib,lzma\nd=open(sys.argv[1],'rb').read()\n") +
-        (gz ? "o=zlib.decompressobj(31)\nr=o.decompress(d)\nassert o.eof and not o.unused_data\n"
-            : "o=lzma.LZMADecompressor(lzma.FORMAT_XZ)\nr=o.decompress(d)\nassert o.eof and not o.unused_data\n") +
-        "sys.stdout.buffer.write(r)\" '" + path + "' 2>/dev/null";
-    FILE* p = popen(cmd.c_str(), "r");
-    std::string out;
-    char buf[65536];
-    size_t n;
-    while ((n = fread(buf, 1, sizeof(buf), p)) > 0) out.append(buf, n);
-    int rc = pclose(p);
-    if (rc != 0) ok = false;
-    return out;
-}
-
-struct Run {
-    std::string comp, outkind;
-    std::unique_ptr<CdnsExporter> exp;
-    std::string cur_name;   // file kind: base name of current output
-    std::string cur_path;   // fd kind: path of the file behind the descriptor
-    int serial = 0;
-
-    CborOutputCompression cc() const {
-        return comp == "gz" ? CborOutputCompression::GZIP : comp == "xz" ? CborOutputCompression::XZ
-                                                                         : CborOutputCompression::NO_COMPRESSION;
-    }
-    std::string suffix() const { return comp == "gz" ? ".gz" : comp == "xz" ? ".xz" : ""; }
-    std::string fresh() { return g_tmpdir + "/exp_" + std::to_string(getpid()) + "_" + std::to_string(serial++); }
-
-    void counters(json& ev) {
-        ev["cnt"] = {{"items", exp->get_block_item_count()}, {"qr", exp->get_block_qr_count()},
-                     {"aec", exp->get_block_aec_count()}, {"mm", exp->get_block_mm_count()},
-                     {"bw", exp->get_blocks_written_count()}, {"active", exp->get_active_block_parameters()}};
-    }
-    void emit_out(const std::string& why, const std::string& path) {
-        bool ok = true;
-        std::string data = decompress(path, comp, ok);
-        json ev = {{"e", "OUT"}, {"why", why}, {"raw_ok", ok}, {"bytes", vh::segs(data)}};
-        if (!data.empty()) ev["rd"] = vr::reader_dump(data);
-        vh::trace().emit(ev);
-        unlink(path.c_str());
-    }
-    void open_first(FilePreamble& fp) {
-        if (outkind == "file") {
-            cur_name = fresh();
-            exp.reset(new CdnsExporter(fp, cur_name, cc()));
-        } else {
-            cur_path = fresh() + ".fd";
-            int fd = ::open(cur_path.c_str(), O_CREAT | O_WRONLY | O_TRUNC, 0600);
-            exp.reset(new CdnsExporter(fp, fd, cc()));
-        }
-    }
-    std::size_t rotate(bool exp_block) {
-        std::size_t r;
-        if (outkind == "file") {
-            std::string old = cur_name;
-            std::string next = fresh();
-            r = exp->rotate_output(next, exp_block);
-            cur_name = next;
-            json ev; // OUT is emitted by the caller after the C event
-            pending_out = old + suffix();
-        } else {
-            std::string oldp = cur_path;
-            std::string next = fresh() + ".fd";
-            int fd = ::open(next.c_str(), O_CREAT | O_WRONLY | O_TRUNC, 0600);
-            r = exp->rotate_output(fd, exp_block);
-            cur_path = next;
-            pending_out = oldp;
-        }
-        return r;
-    }
-    std::string pending_out;
-
-    void run(const json& h) {
-        comp = h.value("comp", "none");
-        outkind = h.value("out", "file");
-        vh::trace().emit({{"e", "R"}, {"comp", comp}, {"out", outkind}, {"preamble", h["preamble"]}});
-        FilePreamble fp = vr::preamble_in(h["preamble"]);
-        open_first(fp);
-        for (auto& op : h["ops"]) {
-            std::string o = op["op"];
-            json ev = {{"e", "C"}, {"op", op}};
-            std::size_t ret = 0;
-            pending_out.clear();
-            try {
-                boost::optional<BlockStatistics> st;
-                if (op.contains("stats")) st = vr::stats_in(op["stats"]);
-                if (o == "qr") ret = exp->buffer_qr(vr::qr_in(op["r"]), st);
-                else if (o == "aec") ret = exp->buffer_aec(vr::aec_in(op["r"]), st);
-                else if (o == "mm") ret = exp->buffer_mm(vr::mm_in(op["r"]), st);
-                else if (o == "wb") ret = exp->write_block();
-                else if (o == "rot") ret = rotate(op.value("export", false));
-                else if (o == "addbp") { BlockParameters bp = vr::bp_in(op["bp"]); ret = exp->add_block_parameters(bp); }
-                else if (o == "setbp") ret = exp->set_active_block_parameters(static_cast<index_t>(op["i"].get<uint64_t>())) ? 1 : 0;
-                else if (o == "counts") ret = 0;
-                else { fprintf(stderr, "unknown op %s\n", o.c_str()); _exit(3); }
-            } catch (std::exception& e) {
-                ev["exc"] = std::string(e.what()).substr(0, 200);
-            }
-            ev["ret"] = ret;
-            counters(ev);
-            vh::trace().emit(ev);
-            if (!pending_out.empty()) emit_out("rot", pending_out);
-        }
-        // destruction closes the last output
-        std::string last = outkind == "file" ? cur_name + suffix() : cur_path;
-        exp.reset();
-        emit_out("destroy", last);
-    }
-};
+#include "exp_run.h"
 
 int main(int argc, char** argv)
 {
@@ -150,6 +28,7 @@ int main(int argc, char** argv)
             if ((job++ % nshards) != shard) continue;
             json h = json::parse(line);
             Run r;
+            r.history_no = job - 1;
             r.run(h);
         }
     } else {
